@@ -63,6 +63,15 @@ let out_str (s : string) = emit s
 let tape_of (a : float array) : nat -> float = fun n ->
   let i = int_of_nat n in if i < Array.length a then a.(i) else nan
 
+(* random tape from the model's own engine (Mt19937.v): generated on demand, four times the furthest draw asked for *)
+let engine_tape (seed : n) : nat -> float =
+  let cache = ref [||] in
+  fun k ->
+    let i = int_of_nat k in
+    if i >= Array.length !cache then
+      cache := Array.of_list (mt_tape_list num seed (nat_of_int (max 1000 (4 * (i + 1)))));
+    !cache.(i)
+
 (* queries thread the tape position of their world through a reference *)
 let out_res_st (st : nat ref) (r : (float list * nat) res) =
   (match r with Ok (_, t) -> st := t | _ -> ());
